@@ -408,6 +408,63 @@ theorem C11_repaired_impossible_cell_vacuous :
       | .ok t => decide ((t[1]).u == 1.0) | .error _ => false) = true := by
   decide +kernel
 
+/-! ### C19, recorded findings (NOT repaired; `known_findings.txt`, `op=prod2|prod3 label=sum(a)|sum(b)+u`): the unlabelled products
+    reject their own result because the validators re-sum up to 9 / 27 cells left to right against a window of [1-2ε, 1+4ε].
+    First pinned witness of each finding (pinned/C19_prod{2,3}_sum_{a,bu}.json); every factor is accepted by the checked
+    constructor, the float evaluation of the current model answers with the same label as the crate. -/
+
+def p2aw0 : Opinion Float 3 :=
+  ⟨#v[fb 0x3fc4a466508d416f, fb 0x3fc5f7487c7d33bd, fb 0x3fcb7f274c8e36ff], fb 0x3fdcf294f333a9eb, #v[fb 0x3fe32f0499165f74, fb 0x3fd5313d9982b1e5, fb 0x3fb1c2e4d1423cc1]⟩
+def p2aw1 : Opinion Float 3 :=
+  ⟨#v[fb 0x3fe10c69efeb3839, fb 0x3fca0c00bb36ccac, fb 0x3fd0cb5df50499cd], fb 0x3f55cdcd898f6ac3, #v[fb 0x3fd6e728e2f0eb7a, fb 0x3fe48bf319c18acf, fb 0x3f0e1d317fdc7b99]⟩
+def p2bw0 : Opinion Float 3 :=
+  ⟨#v[fb 0x3fec11e695d18788, fb 0x3fbd517f192da95d, fb 0x3f80ddf34b1c9742], fb 0x3f0c6e77143bf0e2, #v[fb 0x3fd670545063a178, fb 0x3fde1ee1dd3eb565, fb 0x3fc6e193a4bb5245]⟩
+def p2bw1 : Opinion Float 3 :=
+  ⟨#v[fb 0x3f8b62b094dad139, fb 0x3ed098f7c2f3e2f3, fb 0x3fabaef6c29e48e2], fb 0x3fedd77d8506ceb4, #v[fb 0x3fdfbaf4137947b7, fb 0x3fceb0a9815f429f, fb 0x3fd0ecb72bd716fa]⟩
+def p3aw0 : Opinion Float 3 :=
+  ⟨#v[fb 0x3f7c90771af47abb, fb 0x3fc2297c8d4631f0, fb 0x3f672ff839d52914], fb 0x3feb254ff63eb565, #v[fb 0x3fe895e410c077b6, fb 0x3fb662e1412d667f, fb 0x3fc276ff1c676de7]⟩
+def p3aw1 : Opinion Float 3 :=
+  ⟨#v[fb 0x3f08af4110492fcd, fb 0x3fd71608d233b37d, fb 0x3fdd9e4d68dfb2da], fb 0x3fc695c895c82ebc, #v[fb 0x3fbb8f28a81bebb6, fb 0x3fd36b8c7149239a, fb 0x3fe2d854b257f0bb]⟩
+def p3aw2 : Opinion Float 3 :=
+  ⟨#v[fb 0x3f95e54eb7d56a4b, fb 0x3fda6f3e3942ff26, fb 0x3fda3cbff6475a6c], fb 0x3fc3eb59c9f09f91, #v[fb 0x3fdb555aabf69c5d, fb 0x3fcb754ef208a4f8, fb 0x3fd6effddb051126]⟩
+def p3bw0 : Opinion Float 3 :=
+  ⟨#v[fb 0x3fe307bbfb6f5415, fb 0x3fb32a3638419d08, fb 0x3fd3e7bdcee77ded], fb 0x3f93e3cac2972a64, #v[fb 0x3fd142eba41fd0a1, fb 0x3fdd6f89a1eefc21, fb 0x3fd14d8ab9f1333c]⟩
+def p3bw1 : Opinion Float 3 :=
+  ⟨#v[fb 0x3fe0275c93e29236, fb 0x3fd63de1870d8452, fb 0x3faacb06a8faf12e], fb 0x3fb86811f037e47c, #v[fb 0x3fd9eae212b3c570, fb 0x3fd1ceacd9cab123, fb 0x3fd446711381896e]⟩
+def p3bw2 : Opinion Float 3 :=
+  ⟨#v[fb 0x3fb4ed9e183613e9, fb 0x3fdc3fb52319f5c7, fb 0x3fd5179a66eabde3], fb 0x3fc2da91dfdb8eba, #v[fb 0x3feee4e1f7d3c97f, fb 0x3f7c09f685cf3898, fb 0x3f9c61436413020a]⟩
+
+/-- all ten factors are accepted by `Opinion::try_new` -/
+theorem C19_finding_product_sum_operands_accepted :
+    ([p2aw0, p2aw1, p2bw0, p2bw1, p3aw0, p3aw1, p3aw2, p3bw0, p3bw1, p3bw2].all fun w =>
+      match Opinion.tryNew w.b w.u w.a with | .ok _ => true | .error _ => false) = true := by
+  decide +kernel
+
+/-- C19 (current model = current crate, binary64): `Opinion::new` inside the unlabelled products rejects the result with the
+    labels `sum(a)` / `sum(b)+u` -/
+theorem C19_finding_product_sum_rejected :
+    (isErr (product2U p2aw0 p2aw1) .sumA && isErr (product2U p2bw0 p2bw1) .sumBU
+      && isErr (product3U p3aw0 p3aw1 p3aw2) .sumA && isErr (product3U p3bw0 p3bw1 p3bw2) .sumBU) = true := by
+  decide +kernel
+
+/-! ### C11, recorded finding (NOT repaired; `op=merge oracle=impossible_cell_vacuous`): an impossible joint cell decided by rounding
+    noise above the absolute zero tolerance (pinned/C11_f32_noise_above_eps.json, binary32).  Cell (x1=0, x2=0) has zero belief
+    under every y, so the exact composition gives the vacuous conditional (`C11_impossible_cell_vacuous`); in binary32 the
+    cell's projected likelihood under y1 is 1.59e-7 > ε = 1.19e-7 and the model -- like the crate -- returns the certain opinion
+    (0, 1, 0), u = 0. -/
+
+def icY1 : CondTab Float32 2 3 := #v[⟨#v[fb32 0x00000000, fb32 0x3e800000, fb32 0x3f400000], fb32 0x00000000⟩, ⟨#v[fb32 0x3ec00000, fb32 0x3e800000, fb32 0x3ec00000], fb32 0x00000000⟩]
+def icY2 : CondTab Float32 2 3 := #v[⟨#v[fb32 0x3f400000, fb32 0x3e800000, fb32 0x00000000], fb32 0x00000000⟩, ⟨#v[fb32 0x00000000, fb32 0x3f400000, fb32 0x3e800000], fb32 0x00000000⟩]
+def icA1 : Tab Float32 2 := #v[fb32 0x3f7ffc00, fb32 0x38800000]
+def icA2 : Tab Float32 2 := #v[fb32 0x3f7ff000, fb32 0x39800000]
+def icAY : Tab Float32 3 := #v[fb32 0x3e000000, fb32 0x3f200000, fb32 0x3e800000]
+
+theorem C11_finding_impossible_cell_noise_f32 :
+    (match mergeCond2 false icY1 icY2 icA1 icA2 icAY with
+      | .ok t => decide ((t[0]).u == 0.0) && decide ((t[0]).b[1] == 1.0) && decide ((t[0]).b[0] == 0.0) && decide ((t[0]).b[2] == 0.0)
+      | .error _ => false) = true := by
+  decide +kernel
+
 /-! ### C11, recorded finding (NOT repaired; `known_findings.txt`, `op=merge oracle=equals_composition`): a joint cell that is possible
     only under a `y` with a small base rate.  Y|X1 = [([5/16, 0], 11/16), ([5/16, 1/8], 9/16)], Y|X2 vacuous, a_X1 = [3/8, 5/8],
     a_X2 = [1/4, 3/4], a_Y = [1 - 2^-40, 2^-40]: X2 is irrelevant and the exact merged conditional of the cells (1, ·) is
